@@ -92,7 +92,7 @@ func (in *vfGWInst) Enabled() []string {
 			ok = g.conn[f[1]] && !in.announced[f[1]][f[2]]
 		case "unsub":
 			ok = g.conn[f[1]] && in.announced[f[1]][f[2]]
-		case "graft", "prune", "pub", "ihave", "iwant", "idw":
+		case "graft", "prune", "prunepx", "pub", "ihave", "iwant", "idw":
 			ok = g.conn[f[1]]
 		case "join":
 			ok = len(g.subs[f[1]]) == 0
